@@ -1,6 +1,8 @@
 (* C06 — no protected effect without a valid credential the endpoint accepts. *)
 From Coq Require Import ZArith List Bool String.
 From KM Require Import Base.Bytes Model.Auth Model.AuthGate Model.Routes Proofs.AuthGate.
+From KM Require Model.IPExt Proofs.IPExt.
+From KM Require Import Model.GateObs Proofs.GateObs.
 Import ListNotations.
 Open Scope N_scope.
 
@@ -47,11 +49,40 @@ Theorem c06_deny_no_position : forall now lim deny required q u l iat c,
 Proof. exact deny_no_position. Qed.
 Print Assumptions c06_deny_no_position.
 
+(* IP-restricted certificates, as a statement about ADDRESSES ([peer_inside]): whoever is let in with
+   the IP-certificate bit presents a leaf whose address delegation extension literally carries an IPv4
+   prefix b of at most 32 bits with IPExt.contains b peer = true - the peer's leading plen bits are the
+   block's, partial octets included - for every extension content (any families, any bit strings, any
+   prefix length 0..32, any number of blocks) and every peer (IPv4, IPv4-mapped, other IPv6, unparsable);
+   or the bit came out of a valid session token. *)
 Theorem c06_never_outside : forall now lim deny required q u l iat c,
-  check_auth now lim deny required q = Admit u l iat -> q_tls q = Some c -> x_ip_valid c = false ->
-  hasb l bIPCert = true -> exists t, k_cookie (q_cred q) = Some t /\ valid_cookie now t /\ l = t_level t.
+  check_auth now lim deny required q = Admit u l iat -> q_tls q = Some c -> hasb l bIPCert = true ->
+  peer_inside c \/ exists t, k_cookie (q_cred q) = Some t /\ valid_cookie now t /\ l = t_level t.
 Proof. exact never_outside. Qed.
 Print Assumptions c06_never_outside.
+
+(* block by block: when no prefix of the extension holds the peer, a request without auth_cookie never
+   gets the bit *)
+Theorem c06_never_outside_blocks : forall now lim deny required q u l iat c,
+  check_auth now lim deny required q = Admit u l iat -> q_tls q = Some c -> k_cookie (q_cred q) = None ->
+  (forall ext blocks e b, x_ext c = Some ext -> In (IPExt.ipv4_family, blocks) ext -> In e blocks ->
+                          IPExt.decode e = Some b -> IPExt.contains b (x_peer c) = false) ->
+  hasb l bIPCert = false.
+Proof. exact never_outside_blocks. Qed.
+Print Assumptions c06_never_outside_blocks.
+
+(* in numbers, for what the role-certificate endpoints mint (well-formed blocks) and an IPv4 peer
+   a0.a1.a2.a3: some block of the certificate and the peer have the same quotient by 2^(32 - plen),
+   i.e. the same leading plen bits - 10.20.16.0/20 holds 10.20.16.0 .. 10.20.31.255 and nothing else *)
+Theorem c06_never_outside_numeric : forall now lim deny required q u l iat c blocks a0 a1 a2 a3,
+  check_auth now lim deny required q = Admit u l iat -> q_tls q = Some c -> k_cookie (q_cred q) = None ->
+  x_ext c = Some (IPExt.ext_of blocks) -> forallb IPExt.wf_block blocks = true ->
+  x_peer c = IPExt.V4 a0 a1 a2 a3 -> a0 < 256 -> a1 < 256 -> a2 < 256 -> a3 < 256 ->
+  hasb l bIPCert = true ->
+  exists b, In b blocks /\
+    Proofs.IPExt.bnum b / 2 ^ (32 - IPExt.plen b) = Proofs.IPExt.num a0 a1 a2 a3 / 2 ^ (32 - IPExt.plen b).
+Proof. exact never_outside_numeric. Qed.
+Print Assumptions c06_never_outside_numeric.
 
 (* credential combinations: the password of a basic-auth header counts only when the request has
    no auth_cookie at all AND the endpoint's mask has the password bit.  With a cookie present
@@ -64,6 +95,30 @@ Theorem c06_basic_only_without_cookie : forall now lim deny required q u l iat,
   (exists c, q_tls q = Some c /\ u = x_cn c /\ hasb l (N.lor bKMX509 bIPCert) = true).
 Proof. exact basic_only_without_cookie. Qed.
 Print Assumptions c06_basic_only_without_cookie.
+
+(* the time window of the session cookie is EXACT, to the time unit of the clock, on both sides: a
+   request carrying an auth_cookie is let in on its strength only while nbf <= now <= exp (when it is
+   let in otherwise, it is as the holder of its client certificate); without a client certificate a
+   cookie outside its window - by one unit or by a day, expired or not yet valid - is refused; and the
+   statement is sharp: a gate with ANY positive grace period after exp admits a cookie that is not
+   valid ([cookie_admits_with_grace] is not the code of the tree) *)
+Theorem c06_cookie_window : forall now lim deny required q u l iat t,
+  check_auth now lim deny required q = Admit u l iat -> k_cookie (q_cred q) = Some t ->
+  ((t_nbf t <= now <= t_exp t)%Z /\ u = t_sub t /\ l = t_level t) \/
+  (exists c, q_tls q = Some c /\ u = x_cn c /\ hasb l (N.lor bKMX509 bIPCert) = true).
+Proof. exact cookie_window. Qed.
+Print Assumptions c06_cookie_window.
+
+Theorem c06_cookie_outside_window_refused : forall now lim deny required q t,
+  q_tls q = None -> k_cookie (q_cred q) = Some t -> (t_exp t < now \/ now < t_nbf t)%Z ->
+  exists code, check_auth now lim deny required q = Refuse code.
+Proof. exact cookie_outside_window_refused. Qed.
+Print Assumptions c06_cookie_outside_window_refused.
+
+Theorem c06_grace_refuted : forall grace, (0 < grace)%Z ->
+  exists now required t, cookie_admits_with_grace grace now required t = true /\ ~ valid_cookie now t.
+Proof. exact grace_refuted. Qed.
+Print Assumptions c06_grace_refuted.
 
 (* configuration dimension: for EVERY list of web-UI backends that does not name `password`,
    an endpoint that passes getRequiredWebUIAuthLevel() lets in nobody but the subject of a valid
@@ -122,13 +177,13 @@ Qed.
 Print Assumptions c06_csrf_nonget.
 
 (* the full form is false of the current tree (finding F15): these are exactly the routes whose
-   state-changing effect a cross-site GET carrying the victim's session reaches (ten since the
-   registration-finish handlers insist on POST, 8abc791) *)
+   state-changing effect a cross-site GET carrying the victim's session reaches (nine since the
+   registration-finish handlers and the WebAuthn login finish insist on POST) *)
 Theorem c06_get_state_changers :
   get_state_changers =
   ["runtimeState.u2fRegisterRequest"; "runtimeState.u2fSignRequest";
    "runtimeState.webauthnBeginRegistration";
-   "runtimeState.webauthnAuthLogin"; "runtimeState.webauthnAuthFinish"; "runtimeState.vipPushStartHandler";
+   "runtimeState.webauthnAuthLogin"; "runtimeState.vipPushStartHandler";
    "runtimeState.GenerateNewTOTP"; "runtimeState.oktaPushStartHandler"; "runtimeState.oktaPollCheckHandler";
    "runtimeState.BootstrapOtpAuthHandler"]%string.
 Proof. vm_compute. reflexivity. Qed.
@@ -169,6 +224,14 @@ Theorem c06_old_register_finish_refuted :
 Proof. exists env0, (cross_get 1 bU2F), EChange. vm_compute. tauto. Qed.
 Print Assumptions c06_old_register_finish_refuted.
 
+(* the WebAuthn login finish before it insisted on POST: a GET carrying the token's assertion for the pending
+   challenge, a foreign Origin and the victim's session stored the token's counter and raised the session *)
+Theorem c06_old_auth_finish_refuted :
+  exists env q e, q_origin q = CrossOrigin /\ In e (snd (run env q auth_finish_old_steps None)) /\
+                  state_changing e = true /\ csrf_safe auth_finish_old_steps = false.
+Proof. exists env0, (cross_get 1 bU2F), EChange. vm_compute. tauto. Qed.
+Print Assumptions c06_old_auth_finish_refuted.
+
 (* the certificate branch before the two repairs: (a) chains issued by the role CA counted as
    plain keymaster certificates (an automation certificate outside its netblocks was let in
    although nothing [proves] it); (b) the branch result was returned without testing it against
@@ -181,14 +244,43 @@ Theorem c06_old_tls_refuted :
 Proof. split; [exact old_role_refuted|exact old_mask_refuted]. Qed.
 Print Assumptions c06_old_tls_refuted.
 
+(* The property's predicate on OBSERVATIONS.  When the correspondence reports a case on which the code and
+   the model differ, the case file evaluates on the observed output of that case the boolean
+   [gate_conclusion] (direct call: the implementation admitted (u, l)) resp. [acceptsb] / [identity_okb]
+   (probe through a route: an effect was seen / an identity was logged).  These booleans are exactly the
+   conclusions of c06_gate_sound and c06_routes: a case on which they are false is an input on which the
+   implementation does what the theorems exclude. *)
+Theorem c06_obs_gate_is_spec : forall now deny required q u l,
+  gate_conclusion now deny required q u l = true <->
+  (proves now deny q u l /\ hasb l required = true /\ (q_meth q <> GET -> origin_ok q)).
+Proof. exact gate_conclusion_iff. Qed.
+Print Assumptions c06_obs_gate_is_spec.
+
+Theorem c06_obs_route_is_spec : forall env q g, acceptsb env q g = true <-> accepts env q g.
+Proof. exact acceptsb_iff. Qed.
+Print Assumptions c06_obs_route_is_spec.
+
+Theorem c06_obs_identity_is_spec : forall env q m u,
+  identity_okb env q m u = true <->
+  exists l, proves (e_now env) (e_deny env) q u l /\ hasb l (mask_val (e_webui env) m) = true /\
+            (q_meth q <> GET -> origin_ok q).
+Proof. exact identity_okb_iff. Qed.
+Print Assumptions c06_obs_identity_is_spec.
+
 (* ---- non-vacuity ---- *)
 Definition inside_cert : tlsx :=
   {| x_chains := [role_chain]; x_cn := 4; x_key := 1; x_nb := 0%Z; x_ip_error := false;
-     x_ip_valid := true; x_auto_error := false; x_automation := true; x_revoked := false |}.
+     x_ext := Some (IPExt.ext_of [IPExt.mk 10 0 0 0 8]); x_peer := IPExt.V4 10 1 2 3;
+     x_auto_error := false; x_automation := true; x_revoked := false |}.
+(* an automation certificate for 10.20.16.0/20 presented from [p] *)
+Definition slash20_cert (p : IPExt.peer) : tlsx :=
+  {| x_chains := [role_chain]; x_cn := 4; x_key := 1; x_nb := 0%Z; x_ip_error := false;
+     x_ext := Some (IPExt.ext_of [IPExt.mk 192 168 0 0 16; IPExt.mk 10 20 16 0 20]); x_peer := p;
+     x_auto_error := false; x_automation := true; x_revoked := false |}.
 (* alice's certificate over the key with fingerprint 9 *)
 Definition key9_cert : tlsx :=
   {| x_chains := [main_chain]; x_cn := 1; x_key := 9; x_nb := 0%Z; x_ip_error := false;
-     x_ip_valid := false; x_auto_error := false; x_automation := false; x_revoked := false |}.
+     x_ext := None; x_peer := IPExt.V4 10 1 2 3; x_auto_error := false; x_automation := false; x_revoked := false |}.
 Definition same_post (u l : N) : reqx :=
   {| q_meth := POST; q_origin := SameOrigin; q_tls := None; q_cred := cookie_only (good_token u l) |}.
 Definition cross_post (u l : N) : reqx :=
@@ -212,6 +304,16 @@ Example c06_nonvacuous_gate :
   check_auth 100 true d bIPCert (with_cert POST outside_cert) = Refuse 403 /\
   check_auth 100 true d bAny (with_cert POST outside_cert) = Refuse 403 /\
   check_auth 100 true d (N.lor bU2F bKMX509) (with_cert POST outside_cert) = Refuse 401.
+Proof. vm_compute. repeat split; reflexivity. Qed.
+
+(* netblocks whose prefix ends inside an octet: the remaining bits of that octet count *)
+Example c06_nonvacuous_netblocks :
+  let adm p := check_auth 100 true [] bIPCert (with_cert POST (slash20_cert p)) in
+  adm (IPExt.V4 10 20 16 0) = Admit 4 bIPCert 100 /\ adm (IPExt.V4 10 20 31 255) = Admit 4 bIPCert 100 /\
+  adm (IPExt.V4 192 168 77 1) = Admit 4 bIPCert 100 /\
+  adm (IPExt.V4 10 20 32 0) = Refuse 403 /\ adm (IPExt.V4 10 20 15 255) = Refuse 403 /\
+  adm (IPExt.V4 10 20 40 7) = Refuse 403 /\ adm (IPExt.V4 10 20 0 1) = Refuse 403 /\
+  adm (IPExt.V4 172 16 0 1) = Refuse 403 /\ adm IPExt.V6other = Refuse 403 /\ adm IPExt.Garbage = Refuse 403.
 Proof. vm_compute. repeat split; reflexivity. Qed.
 
 (* deny lists: every position counts, whatever the length *)
